@@ -4,14 +4,13 @@ TLog == ndJsonDeserialize(IOEnv.TRACE_FILE)
 VARIABLE k
 TInit == /\ k \in 1..Len(TLog)
          /\ d = [vt |-> TLog[k].vt, pn |-> TLog[k].pn, std |-> TLog[k].std, dmean |-> TLog[k].dmean, dstd |-> TLog[k].dstd,
-                 spacing |-> TLog[k].spacing, feats |-> TLog[k].feats, missing |-> TLog[k].missing, cols |-> TLog[k].cols,
-                 nulltime |-> TLog[k].nulltime, idkind |-> TLog[k].idkind, src |-> TLog[k].src]
+                 spacing |-> TLog[k].spacing, fu |-> TLog[k].fu, feats |-> TLog[k].feats, missing |-> TLog[k].missing, cols |-> TLog[k].cols,
+                 nulltime |-> TLog[k].nulltime, idkind |-> TLog[k].idkind, tab |-> TLog[k].tab, src |-> TLog[k].src]
 TNext == UNCHANGED <<k, d>>
 TSpec == TInit /\ [][TNext]_<<k, d>>
 Rec == TLog[k]
 Conforms == LET o == Outcome(d) IN
    /\ \/ Rec.outcome = o
-      \/ (o = "hangs_or_completes" /\ Rec.outcome \in {"timeout", "completes"})
       \/ (o = "crash_after_validation" /\ Rec.outcome \in {"crash_TypeError", "crash_ValueError", "crash_KeyError", "crash_IndexError",
                                                          "crash_LeaspyIndividualParamsInputError", "crash_AssertionError", "crash_RuntimeError"})
    /\ Rec.outcome = "completes" =>
